@@ -170,7 +170,7 @@ class StmtMixin(object):
         rhs = self.ev(node.value, st)
         if is_ref(getattr(cur, 'sort', None)):
             name = {ast.BitOr: '__ior__', ast.BitAnd: '__iand__', ast.Sub: '__isub__', ast.BitXor: '__ixor__', ast.Add: '__iadd__'}.get(type(node.op))
-            m = self.reg.method(cur.sort.cls, name) if name else None
+            m = self.reg.method(cur.sort.cls, name, [rhs]) if name else None
             if m is None:
                 raise OutsideSubset('augmented assignment %s on %s' % (type(node.op).__name__, cur.sort))
             res = self.call_contract(m, [cur, rhs], {}, st)
@@ -321,8 +321,14 @@ class StmtMixin(object):
         return k, self.ct.loops.get(k)
 
     def havoc_for_loop(self, st, node, spec):
+        stored = set()
+        for x in ast.walk(node):
+            if isinstance(x, ast.Name) and isinstance(x.ctx, (ast.Store, ast.Del)):
+                stored.add(x.id)
         for name in self.assigned_names([node]):
             cur = st.env.get(name)
+            if name not in stored and isinstance(cur, SV) and not isinstance(cur.sort, (SeqT, MapT, SetT)):
+                continue                 # method call on an object reference: the variable itself is not reassigned
             decl = self.ct.locals.get(name)
             if decl is not None:
                 st.env[name] = fresh(decl, name)
